@@ -215,7 +215,9 @@ fn has_curves(p: &Path) -> bool {
 pub fn stroke_possibly_scaled(dt: &mut DrawTarget, path: &Path, style: &StrokeStyle, t: &Transform, aa: bool, st: &mut Stats) {
     let hsh = crate::prng::hash_str(&format!("{:?}{:?}{:?}", path, style, t));
     let op = crate::ops::Op::Stroke(path.clone(), crate::gen::SrcSpec::Solid(0xffffffff), style.clone(), opts(BlendMode::SrcOver, 1., aa));
-    if hsh % 10 == 0 {
+    // (dash entries near the top of the f32 range cannot be scaled up)
+    let scalable = style.dash_array.iter().all(|d| d.abs() < 1e30) && style.dash_offset.abs() < 1e30;
+    if hsh % 10 == 0 && scalable {
         let e = [-14i32, -13, -12, -11, -10, -9, 9, 10, 11, 12][(hsh / 10 % 10) as usize];
         let k = (2.0f32).powi(e);
         dt.set_transform(&Transform::scale(k, k).then(t));
